@@ -282,10 +282,11 @@ impl<'a> Engine<'a> {
     if acted { out.count("acted_steps"); }
     if matches!(op, Op::RA) { out.count("release_all_calls"); }
     // (updated at the end of apply; the clauses below see the list as it was before this step)
-    let in_effect_after: Vec<Mapping> = {
+    // (kept only where it is judged: C03, layouts without absorbing; elsewhere an absorbed key's ignored release would let it grow)
+    let in_effect_after: Vec<Mapping> = if !(self.flags.c03 && !self.case.has_absorbing) { vec![] } else {
       let mut v = self.st.in_effect.clone();
       match op {
-        Op::P(_) => { if acted { if let Some(m) = &fired { v.push(m.clone()); } } },
+        Op::P(_) => { if acted { if let Some(m) = &fired { if !v.contains(m) { v.push(m.clone()); } } } },
         Op::R(k) => { if acted { v.retain(|m| !m.from.contains(k)); } },
         Op::RA => v.clear()
       }
